@@ -173,14 +173,15 @@ std::string observe_std(std::bitset<B> const& cur, std::bitset<B> const& oth, st
 }
 
 template <typename T>
-std::string raw_words(T const& x, unsigned wordbits)
+std::string raw_words(T const& x, unsigned wordbits, std::size_t nbits)
 {
     // object representation of the etl object = its _words array (little endian host)
     unsigned char buf[sizeof(T)];
     std::memcpy(buf, &x, sizeof(T));
     std::string r;
     std::size_t wb = wordbits / 8;
-    for (std::size_t k = 0; k < sizeof(T) / wb; ++k) {
+    std::size_t const nwords = (nbits + wordbits - 1) / wordbits;   // 0 words for Bits = 0 (sizeof is 1 then)
+    for (std::size_t k = 0; k < nwords && k < sizeof(T) / wb; ++k) {
         u64 v = 0;
         for (std::size_t j = 0; j < wb; ++j) { v |= static_cast<u64>(buf[k * wb + j]) << (8 * j); }
         char tmp[32];
@@ -352,7 +353,7 @@ template <typename A, std::size_t B>
 void run_hist(std::vector<Op> const& ops, Out& impl, Out& ref, bool words)
 {
     using T = typename A::T;
-    static_assert(sizeof(T) == ((B + A::word - 1) / A::word) * (A::word / 8));
+    static_assert(B == 0 || sizeof(T) == ((B + A::word - 1) / A::word) * (A::word / 8));
     // default-initialised (not value-initialised) objects in storage filled with 0xFF: the default constructor
     // itself has to clear every word
     alignas(T) unsigned char cur_buf[sizeof(T)];
@@ -369,7 +370,7 @@ void run_hist(std::vector<Op> const& ops, Out& impl, Out& ref, bool words)
         std::string q;
         bool ok = etl_step<A>(cur, oth, o, q);
         if (words) {
-            ei.push_back(ok ? raw_words(cur, A::word) : std::string("contract"));
+            ei.push_back(ok ? raw_words(cur, A::word, B) : std::string("contract"));
             continue;
         }
         ei.push_back(ok ? observe_etl<A>(cur, oth, q) : std::string("contract"));
@@ -398,7 +399,8 @@ bool dispatch_kind(std::string const& kind, unsigned w, std::vector<Op> const& o
 }
 
 // 257: more set bits than an 8-bit counter holds, 33 / 17 / 9 / 5 storage words
-#define WIDTHS(X) X(1) X(7) X(8) X(9) X(31) X(32) X(33) X(63) X(64) X(65) X(127) X(128) X(129) X(257)
+// 0: std::bitset<0> is a valid type (no bits; every positional member throws; to_string() is empty)
+#define WIDTHS(X) X(0) X(1) X(7) X(8) X(9) X(31) X(32) X(33) X(63) X(64) X(65) X(127) X(128) X(129) X(257)
 
 // The same classes under constant evaluation (count() then runs detail::popcount_fallback): two
 // fixed scripts (Ops.v: ct_ops / ct_str_ops), evaluated by the compiler for the etl classes and at
@@ -455,24 +457,36 @@ bool ct_strings_std()
     return t.size() == B && t[B - 1] == (B >= 2 ? '1' : '0');
 }
 
+// Evaluate a script in a constant expression WITHOUT breaking the build when it is not one (e.g. it reads an
+// uninitialised member): the value is a defaulted template argument, a non-constant expression there is a
+// substitution failure and the fallback overload reports "not a constant expression" (printed as 2).
+template <typename T, std::size_t B, bool V = ct_script<T, B>()>
+constexpr int ct_eval(int) { return V ? 1 : 0; }
+template <typename T, std::size_t B>
+constexpr int ct_eval(long) { return 2; }
+template <std::size_t B, bool V = ct_strings_etl<B>()>
+constexpr int ct_eval_str(int) { return V ? 1 : 0; }
+template <std::size_t B>
+constexpr int ct_eval_str(long) { return 2; }
+
 template <std::size_t B>
 bool run_ct(std::string const& kind, unsigned w, Out& impl, Out& ref)
 {
     if (kind == "bs" && w == 64) {
-        constexpr bool a = ct_script<etl::bitset<B>, B>();
-        constexpr bool b = ct_strings_etl<B>();
-        impl.b(a).b(b);
+        constexpr int a = ct_eval<etl::bitset<B>, B>(0);
+        constexpr int b = ct_eval_str<B>(0);
+        impl.num(a).num(b);
         ref.b(ct_script<std::bitset<B>, B>()).b(ct_strings_std<B>());
         return true;
     }
     if (kind != "bb") { return false; }
-    bool r = false;
-    if (w == 8) { constexpr bool a = ct_script<etl::basic_bitset<B, std::uint8_t>, B>(); r = a; }
-    else if (w == 16) { constexpr bool a = ct_script<etl::basic_bitset<B, std::uint16_t>, B>(); r = a; }
-    else if (w == 32) { constexpr bool a = ct_script<etl::basic_bitset<B, std::uint32_t>, B>(); r = a; }
-    else if (w == 64) { constexpr bool a = ct_script<etl::basic_bitset<B, std::uint64_t>, B>(); r = a; }
+    int r = 0;
+    if (w == 8) { constexpr int a = ct_eval<etl::basic_bitset<B, std::uint8_t>, B>(0); r = a; }
+    else if (w == 16) { constexpr int a = ct_eval<etl::basic_bitset<B, std::uint16_t>, B>(0); r = a; }
+    else if (w == 32) { constexpr int a = ct_eval<etl::basic_bitset<B, std::uint32_t>, B>(0); r = a; }
+    else if (w == 64) { constexpr int a = ct_eval<etl::basic_bitset<B, std::uint64_t>, B>(0); r = a; }
     else { return false; }
-    impl.b(r);
+    impl.num(r);
     ref.b(ct_script<std::bitset<B>, B>());
     return true;
 }
